@@ -44,7 +44,30 @@ def symx(facts, n):
         return {"+": a + b, "-": a - b, "*": a * b}[n["op"]]
     if k == "UnaryExprOrTypeTraitExpr":
         return sympy.Symbol("sizeof(%s)" % n.get("argtype", facts.ntext(n)).replace(" ", ""))
+    if k == "DeclRefExpr" and n.get("dk") == "Var" and n.get("local"):
+        d = local_decl(facts, n["did"])
+        if d is not None and kids(d) and re.match(r"^(constexpr |const )", d.get("t", "") + " ") is not None or (d is not None and kids(d) and d.get("t", "").startswith("const")):
+            return symx(facts, kids(d)[0])
     return sympy.Symbol(facts.ntext(n))
+
+
+_DECLS = {}
+
+
+def local_decl(facts, did):
+    """VarDecl of a local by its id (index built once per fact base)"""
+    key = id(facts)
+    if key not in _DECLS:
+        idx = {}
+        for fn in facts.functions:
+            b = tbf.body(fn)
+            if b is None:
+                continue
+            for x in walk(b):
+                if x.get("k") == "VarDecl":
+                    idx[x["did"]] = x
+        _DECLS[key] = idx
+    return _DECLS[key].get(did)
 
 
 def assignments_to(fn, member):
